@@ -264,10 +264,49 @@ Proof.
     split; [exact Hc | split; [exact Hcur | exact Hsub]].
 Qed.
 
+(* ---- the hierarchy pass only sets end-transaction ids ---- *)
+Lemma hier_pass_parts g s :
+  d_live (s_db (hier_pass g s)) = d_live (s_db s) /\ d_av (s_db (hier_pass g s)) = d_av (s_db s) /\
+  d_tx (s_db (hier_pass g s)) = d_tx (s_db s) /\ d_chg (s_db (hier_pass g s)) = d_chg (s_db s) /\
+  s_committed (hier_pass g s) = s_committed s /\ s_uow (hier_pass g s) = s_uow s /\ s_err (hier_pass g s) = s_err s /\
+  (forall r', In r' (d_vt (s_db (hier_pass g s))) ->
+     exists r, In r (d_vt (s_db s)) /\ vkey r' = vkey r /\ vtx r' = vtx r /\ vop r' = vop r /\
+               vdat r' = vdat r /\ vmod r' = vmod r).
+Proof.
+  unfold hier_pass. destruct (no_hierb g).
+  { repeat split; try reflexivity. intros r' Hr'. exists r'. auto 8. }
+  destruct (u_cur (s_uow s)) as [T|].
+  2:{ repeat split; try reflexivity. intros r' Hr'. exists r'. auto 8. }
+  simpl. repeat split; try reflexivity.
+  intros r' Hr'. apply in_map_iff in Hr' as [r [E Hr]]. exists r. split; [exact Hr|].
+  destruct (hier_closed g T (d_vt (s_db s)) r); subst r'; simpl; auto 8.
+Qed.
+
+Lemma hier_pass_flat g s : no_hierb g = true -> hier_pass g s = s.
+Proof. intro H. unfold hier_pass. rewrite H. reflexivity. Qed.
+
+Lemma hier_pass_invw g s : Inv1w s -> Inv1w (hier_pass g s).
+Proof.
+  destruct (hier_pass_parts g s) as [El [Ea [Et [Ec [Em [Eu [Ee Hv]]]]]]].
+  intros [[V [A [C P]]] [Hc [Hcur Hsub]]]. unfold Inv1w, tx_ok, tx_sub. rewrite Ea, Et, Ec, Em, Eu.
+  split; [|split; [exact Hc | split; [exact Hcur | exact Hsub]]].
+  repeat split; try assumption.
+  intros r' Hr'. destruct (Hv r' Hr') as [r [Hr [_ [E _]]]]. rewrite E. apply V. exact Hr.
+Qed.
+
+Lemma hier_pass_inv g s : Inv1 s -> Inv1 (hier_pass g s).
+Proof.
+  destruct (hier_pass_parts g s) as [El [Ea [Et [Ec [Em [Eu [Ee Hv]]]]]]].
+  intros [[V [A [C P]]] [Hc [Hcur [Hsub Hnone]]]]. unfold Inv1, tx_ok, cur_ok, tx_sub. rewrite Ea, Et, Ec, Em, Eu.
+  split; [|split; [exact Hc | split; [exact Hcur | split; [exact Hsub | exact Hnone]]]].
+  repeat split; try assumption.
+  intros r' Hr'. destruct (Hv r' Hr') as [r [Hr [_ [E _]]]]. rewrite E. apply V. exact Hr.
+Qed.
+
 Lemma step_invw g s e : Inv1w s -> Inv1w (step g s e).
 Proof.
   intro H. destruct e; simpl.
-  - apply flush_invw; exact H.
+  - apply hier_pass_invw. apply flush_invw; exact H.
   - destruct H as [Hdb [Hc [Hcur Hsub]]]. unfold Inv1w, tx_sub; simpl.
     repeat split; try apply Hdb; try discriminate; auto.
   - destruct H as [Hdb [Hc [Hcur Hsub]]]. unfold Inv1w, tx_sub; simpl.
@@ -281,7 +320,7 @@ Definition no_manual (evs : list ev) : Prop := ~ In ManualTx evs.
 Lemma step_inv g s e : e <> ManualTx -> Inv1 s -> Inv1 (step g s e).
 Proof.
   intros Hne H. destruct e; simpl.
-  - apply flush_inv; exact H.
+  - apply hier_pass_inv. apply flush_inv; exact H.
   - destruct H as [Hdb [Hc [Hcur [Hsub Hnone]]]]. unfold Inv1, cur_ok, tx_sub; simpl.
     repeat split; try apply Hdb; try discriminate; auto.
   - destruct H as [Hdb [Hc [Hcur [Hsub Hnone]]]]. unfold Inv1, cur_ok, tx_sub; simpl.
